@@ -83,6 +83,7 @@ type Req struct {
 	Opaque  uint32
 	Now     uint32
 	ValHead []byte // first bytes (up to 40) of the value of a storage request
+	Burst   int    // position of the request within a burst of pipelined requests (0 = first)
 	Status  uint16 // status of the reply (also for quiet requests that produced none)
 	Replied bool
 	Faulted string
@@ -626,6 +627,7 @@ func (s *Store) ServeConn(c io.ReadWriteCloser) {
 
 	r := bufio.NewReaderSize(c, 1<<16)
 	w := bufio.NewWriterSize(c, 1<<16)
+	burst := 0
 	for {
 		f, err := readFrame(r)
 		if err != nil {
@@ -640,7 +642,12 @@ func (s *Store) ServeConn(c io.ReadWriteCloser) {
 		gate := s.gate
 		s.mu.Unlock()
 
-		rq := Req{Conn: id, Op: f.op, Key: string(f.key), Opaque: f.opaque}
+		rq := Req{Conn: id, Op: f.op, Key: string(f.key), Opaque: f.opaque, Burst: burst}
+		if r.Buffered() > 0 {
+			burst++
+		} else {
+			burst = 0
+		}
 		if gate != nil {
 			gate(id, &rq)
 		}
